@@ -43,7 +43,7 @@ func (p *Validator) Validate(buf []byte) (err error) {
 	p.line = 1
 	p.mode = valueMap
 	// Skip BOM if present.
-	if 3 < len(buf) && buf[0] == 0xEF {
+	if 2 < len(buf) && buf[0] == 0xEF {
 		if buf[1] == 0xBB && buf[2] == 0xBF {
 			err = p.validateBuffer(buf[3:], true)
 		} else {
@@ -77,7 +77,7 @@ func (p *Validator) ValidateReader(r io.Reader) error {
 	}
 	var skip int
 	// Skip BOM if present.
-	if 3 < len(buf) && buf[0] == 0xEF && buf[1] == 0xBB && buf[2] == 0xBF {
+	if 2 < len(buf) && buf[0] == 0xEF && buf[1] == 0xBB && buf[2] == 0xBF {
 		skip = 3
 	}
 	for {
